@@ -9,5 +9,7 @@ func init() {
 		o.pins("internal/mod/mvs", "NewGraph", "Graph.Require", "Graph.Selected", "Graph.BuildList", "buildList", "BuildList")
 		o.pins("internal/par", "Work.Add", "Work.Do", "Work.runner", "Work.init")
 		o.pins("mod/module", "Versions.Max")
+		o.pins("internal/mod/modrequirements", "Requirements.readModGraph", "Requirements.cueModSummary", "NewRequirements", "Requirements.Graph", "cmpVersion")
+		o.pins("internal/par", "NewQueue", "Queue.Add", "Queue.Idle")
 	}
 }
